@@ -7,7 +7,9 @@ for d in sorted(glob.glob(os.path.join(ROOT, "seeded", "*-*"))):
     n = os.path.basename(d)
     a = {}
     try: a = json.load(open(os.path.join(d, "meta.agent.json")))
-    except Exception: pass
+    except Exception:
+        try: a = json.load(open(os.path.join(d, "meta.summary.json")))
+        except Exception: pass
     ver = open(os.path.join(d, "verify.txt")).read() if os.path.exists(os.path.join(d, "verify.txt")) else ""
     det = open(os.path.join(d, "detect.txt")).read() if os.path.exists(os.path.join(d, "detect.txt")) else ""
     m = re.search(r"caught by: (\[.*\]|NONE)", det)
